@@ -21,11 +21,12 @@ RULE = (
     "float / dict / ndarray); unrelated random pairs of the same kind; pairs with NaN. Every pair is compared at its design tolerance "
     "and at tolerances drawn from rtol, atol in {0,1e-9,1e-5,1e-2,1} x equal_nan x check_dtypes (thorough: all 100), plus the default "
     "keyword arguments. Observed: ==, != (both directions), equals, aequals, diff().members_diff / different_types, "
-    "skcriteria.testing.assert_*. Non-trivial: the pair is not (x, x); distinct by case hash. A comparison whose exact |a-b| lies "
-    "within 1e-6 (relative) of atol + rtol*|b| is skipped and counted (floating-point evaluation of the bound inside NumPy)."
+    "skcriteria.testing.assert_*. Non-trivial: the pair is not (x, x); distinct by case hash. A comparison in which "
+    "double-precision rounding decides `|a-b| <= atol + rtol*|b|` differently from exact arithmetic (or lies within 1e-12 of "
+    "the bound) is skipped and counted."
 )
 ASSUMPTIONS = [
-    "np.allclose modelled as |a-b| <= atol + rtol*|b| over exact rationals; cells closer than 1e-6 (relative) to the bound are skipped",
+    "np.allclose modelled as |a-b| <= atol + rtol*|b| over exact rationals; calls in which IEEE rounding flips that test are skipped",
     "np.array_equal modelled as shape equality + cell equality (NaN != NaN); object-dtype arrays hold numbers / booleans only",
     "extras are dictionaries with string keys holding float / int / bool / object ndarrays, Python ints, strs, floats and dicts",
     "labels are str or int; a label is compared by value and type tag",
@@ -40,7 +41,7 @@ PARTIAL = (
 EXHAUSTIVE = False
 
 GRID = [0.0, 1e-9, 1e-5, 1e-2, 1.0]
-NEAR = Fraction(1, 10 ** 6)
+NEAR = Fraction(1, 10 ** 12)
 DM_MEMBERS = ["criteria", "alternatives", "objectives", "weights", "matrix", "dtypes"]
 RES_MEMBERS = ["method", "alternatives", "values", "extra_"]
 ALT_POOL = ["A0", "A1", "A2", "A10", "z", "alt", "PE", "foo", "foo_1", "élan", "A 3", "b", "Q1", "Q2"]
@@ -341,9 +342,10 @@ def _rank_pairs(obs):
 def requests(case, obs):
     l, r = obs["left"], obs["right"]
     reqs = []
-    for t in [_default_tol(l)] + list(case["tols"]):
+    for i, t in enumerate([_default_tol(l)] + list(case["tols"])):
         reqs.append(_req("diff", l, r, t))
-        reqs.append(_req("cmpall", l, r, t))
+        # x.aequals(y) has its own defaults: equal_nan=True whatever the class's diff() default is
+        reqs.append(_req("cmpall", l, r, [1e-05, 1e-08, True, False] if i == 0 else t))
     reqs.append(_req("cmpall", r, l, [0.0, 0.0, False, True]))  # y == x
     # assert_rcmp_equals re-checks every ranking with assert_result_equals(lrank, rrank) at default kwargs
     for (ln, lr), (rn, rr) in _rank_pairs(obs):
@@ -359,18 +361,28 @@ def requests(case, obs):
 # ----------------------------------------------------------------------------- exact arithmetic of the oracle
 
 
+def _rounding_flips(fa, fb, rt, at):
+    """does the double-precision evaluation of `|a-b| <= atol + rtol*|b|` (what NumPy computes) differ from the exact
+    one (what the property and the model speak about)?  fa, fb, rt, at: Fractions of doubles"""
+    d = abs(fa - fb)
+    bound = at + rt * abs(fb)
+    exact = d <= bound
+    x, y = float(fa), float(fb)
+    in_float = abs(x - y) <= float(at) + float(rt) * abs(y)
+    return in_float != exact or (d != bound and abs(d - bound) <= NEAR * bound)
+
+
 def _pair_state(a, b, rtol, atol):
-    """relation of two finite spec numbers at a tolerance: 'same' | 'within' | 'beyond' | 'near'"""
+    """relation of a left cell `a` and a right cell `b` (finite spec numbers) at a tolerance, as np.allclose(left, right)
+    sees them: 'same' | 'within' | 'beyond' | 'near' (rounding decides)"""
     fa, fb = _frac(a), _frac(b)
     d = abs(fa - fb)
     if d == 0:
         return "same"
-    bound = _frac(atol) + _frac(rtol) * abs(fb)
-    if bound == 0:
-        return "beyond"
-    if abs(d - bound) <= NEAR * bound:
+    rt, at = _frac(rtol), _frac(atol)
+    if _rounding_flips(fa, fb, rt, at):
         return "near"
-    return "beyond" if d > bound else "within"
+    return "beyond" if d > at + rt * abs(fb) else "within"
 
 
 def _cells_state(xs, ys, rtol, atol):
@@ -392,9 +404,7 @@ def _model_cells_near(a, b, rtol, atol):
         if p is None or q is None:
             continue
         fp, fq = C.frac(p), C.frac(q)
-        d = abs(fp - fq)
-        bound = at + rt * abs(fq)
-        if d != 0 and bound != 0 and abs(d - bound) <= NEAR * bound:
+        if fp != fq and _rounding_flips(fp, fq, rt, at):
             return True
     return False
 
@@ -415,7 +425,7 @@ def _extra_near(a, b, rtol, atol):
 
 
 def near_boundary(l, r, rtol, atol):
-    """does the comparison of the two encoded objects at this tolerance evaluate some cell within 1e-6 of its bound?"""
+    """does the comparison of the two encoded objects at this tolerance contain a cell pair on which rounding decides?"""
     if l["kind"] != r["kind"]:
         return False
     if l["kind"] == "dm":
@@ -490,7 +500,7 @@ def judge(case, obs, replies):
             if o["aequals"] is not True:
                 prop(f"`x == y` but not `x.aequals(y)` ({nm})", True, o["aequals"])
     # ---------------- consistency of one call: aequals <=> no differences; different_types
-    for nm, o in zip(names, per):
+    for nm, o in list(zip(names, per))[1:]:  # (x.aequals(y) and x.diff(y) have different defaults for equal_nan)
         d = o["diff"]
         if o["aequals"] != (not (d["different_types"] or d["members"])):
             prop(f"aequals disagrees with diff ({nm})", not (d["different_types"] or d["members"]), o["aequals"])
@@ -766,22 +776,32 @@ def _design(rng, positive_bound=False):
             return rt, at
 
 
-def _perturb(rng, b, beyond):
-    """a value `a` whose distance to `b` is 2.7x (beyond) / 0.37x (within) the design tolerance bound at b.
-    returns (a, design tolerance, note)"""
+def _perturb(rng, l, beyond):
+    """a new value `r` for the right-hand object with |l - r| = 2.7x (beyond) / 0.37x (within) the bound
+    atol + rtol*|r| of a design tolerance drawn from the grid (NumPy's bound is on the RIGHT operand).
+    returns (r, design tolerance, note) or None when no such value exists"""
     rt, at = _design(rng, positive_bound=not beyond)
-    bound = at + rt * abs(b)
-    if bound == 0:
-        if beyond:
-            delta = max(abs(b), 1.0) * rng.choice([1e-12, 1e-6, 0.5])
-        else:
+    f = 2.7 if beyond else 0.37
+    base = at + rt * abs(l)
+    if base == 0:
+        if not beyond:
             return None
+        d = max(abs(l), 1.0) * rng.choice([1e-12, 1e-6, 0.5])
+        r = l + d if rng.random() < 0.5 else l - d
     else:
-        delta = bound * (2.7 if beyond else 0.37)
-    a = b + delta if rng.random() < 0.5 else b - delta
-    if a == b:
+        cands = []
+        d_in = f * base / (1 + f * rt)  # towards zero, same sign
+        if l != 0 and d_in <= abs(l):
+            cands.append(l - math.copysign(d_in, l))
+        if f * rt < 1:  # away from zero
+            cands.append(l + math.copysign(f * base / (1 - f * rt), l if l != 0 else 1.0))
+        cands = [c for c in cands if c != l]
+        if not cands:
+            return None
+        r = rng.choice(cands)
+    if r == l:
         return None
-    return a, (rt, at), ("beyond" if beyond else "within")
+    return r, (rt, at), ("beyond" if beyond else "within")
 
 
 def _tols(ctx, rng, design=None, check_dtypes=None):
@@ -833,7 +853,7 @@ def _change_dm(rng, spec, member):
         if p is None:
             return None
         right["weights"][j] = p[0]
-        ch = {"numeric": [[p[0], float(spec["weights"][j])]], "design_tol": list(p[1]), "design": p[2]}
+        ch = {"numeric": [[float(spec["weights"][j]), p[0]]], "design_tol": list(p[1]), "design": p[2]}
     elif member == "matrix":
         if n == 0 or m == 0:
             return None
@@ -844,17 +864,17 @@ def _change_dm(rng, spec, member):
             if len(set(spec["colkinds"])) == 1 or True:
                 # flipping a boolean changes the cell by 1
                 right["matrix"][i][j] = not spec["matrix"][i][j]
-                ch = {"numeric": [[int(right["matrix"][i][j]), int(spec["matrix"][i][j])]], "design": "bool-flip",
+                ch = {"numeric": [[int(spec["matrix"][i][j]), int(right["matrix"][i][j])]], "design": "bool-flip",
                       "exact_dtype": objdtype}
         elif kind == "int":
             right["matrix"][i][j] = spec["matrix"][i][j] + rng.choice([-3, -1, 1, 2])
-            ch = {"numeric": [[right["matrix"][i][j], spec["matrix"][i][j]]], "design": "int-step", "exact_dtype": objdtype}
+            ch = {"numeric": [[spec["matrix"][i][j], right["matrix"][i][j]]], "design": "int-step", "exact_dtype": objdtype}
         else:
             p = _perturb(rng, float(spec["matrix"][i][j]), rng.random() < 0.6)
             if p is None:
                 return None
             right["matrix"][i][j] = p[0]
-            ch = {"numeric": [[p[0], float(spec["matrix"][i][j])]], "design_tol": list(p[1]), "design": p[2],
+            ch = {"numeric": [[float(spec["matrix"][i][j]), p[0]]], "design_tol": list(p[1]), "design": p[2],
                   "exact_dtype": objdtype}
     elif member == "dtypes":
         ints = [j for j in range(n) if spec["colkinds"][j] == "int"]
@@ -887,7 +907,7 @@ def _change_extra(rng, ex, n):
         if p is None:
             return None
         new[k]["data"][i] = p[0]
-        return (ex if ex_added else None), new, {"numeric": [[p[0], float(ex[k]["data"][i])]], "design_tol": list(p[1]), "design": p[2]}
+        return (ex if ex_added else None), new, {"numeric": [[float(ex[k]["data"][i]), p[0]]], "design_tol": list(p[1]), "design": p[2]}
     if how == "int":
         ik = [k for k in keys if ex[k]["t"] == "int"]
         if not ik:
@@ -975,7 +995,7 @@ def _change_result(rng, spec, member):
         if spec["type"] == "kernel":
             i = rng.randrange(n)
             right["values"][i] = not spec["values"][i]
-            ch = {"numeric": [[int(right["values"][i]), int(spec["values"][i])]], "design": "bool-flip"}
+            ch = {"numeric": [[int(spec["values"][i]), int(right["values"][i])]], "design": "bool-flip"}
         else:
             # another valid ranking of the same length
             for _ in range(20):
@@ -985,10 +1005,14 @@ def _change_result(rng, spec, member):
             else:
                 return None
             right["values"] = [float(x) for x in v] if spec["vdtype"] == "float" else v
-            ch = {"numeric": [[a, b] for a, b in zip(right["values"], spec["values"])], "design": "other-ranking",
+            ch = {"numeric": [[a, b] for a, b in zip(spec["values"], right["values"])], "design": "other-ranking",
                   "exact_dtype": spec["vdtype"] == "object" or (spec["vdtype"] == "list" and n == 0)}
     elif member == "extra_":
-        r = _change_extra(rng, spec["extra"], n)
+        r = None
+        for _ in range(12):
+            r = _change_extra(rng, spec["extra"], n)
+            if r is not None:
+                break
         if r is None:
             return None
         newleft, newextra, ch = r
@@ -1026,10 +1050,10 @@ def gen(ctx):
         cases.append(_mk(rel, left, right, _tols(ctx, rng)))
 
     # 2. exactly one member changed
-    for _ in range(ctx.n(110, 2600)):
-        kind = rng.choice(kinds)
+    for it in range(ctx.n(150, 2600)):
+        kind = kinds[it % 3]  # every member of every kind in turn
         if kind == "dm":
-            member = rng.choice(DM_MEMBERS)
+            member = DM_MEMBERS[(it // 3) % len(DM_MEMBERS)]
             left = gen_dm(rng, m=rng.choice([1, 2, 3, 4]), n=rng.choice([1, 2, 3, 4]))
             r = _change_dm(rng, left, member)
             if r is None:
@@ -1038,7 +1062,7 @@ def gen(ctx):
             cases.append(_mk("one_member", left, right, _tols(ctx, rng, ch.get("design_tol"), True if member == "dtypes" and rng.random() < 0.7 else None),
                              member=member, change=ch))
         elif kind == "result":
-            member = rng.choice(RES_MEMBERS + ["extra_", "extra_"])
+            member = (RES_MEMBERS + ["extra_", "extra_"])[(it // 3) % 6]
             left = gen_result(rng, n=rng.choice([1, 2, 3, 4, 5]))
             r = _change_result(rng, left, member)
             if r is None:
